@@ -165,7 +165,9 @@ class String(Object, str):
 
     def __new__(cls, s=None, brackets=None):
         value = super().__new__(cls, s)
-        if brackets is not None and f"]{brackets}]" in value:
+        if brackets is not None and f"]{brackets}]" in f"{value}]{brackets}":
+            # The content ends at the first `]brackets]`, which may begin
+            # inside the content and end inside the closing delimiter.
             raise ValueError(f"Syntactically illegal bracket string: {s!r}")
         value.brackets = brackets
         return value
